@@ -377,9 +377,50 @@ def one_history(run, sc, i, length):
     return True
 
 
+def modelless_witness(run, sc):
+    """a namespace whose document has no Models element, written plainly, then with a new model version, then plainly
+    again (and the other namespace after it): every write returns what it returns on a fresh graph"""
+    import re
+    files = {"a.xml": re.sub(r"<Models>.*?</Models>", "", minibase.DOC_A, count=1, flags=re.S),
+             "b.xml": re.sub(r"<uax:Models>.*?</uax:Models>", "", minibase.DOC_B, count=1, flags=re.S)}
+    try:
+        G, _ = W.build_graph(sc, "mlw", files)
+    except Exception as e:  # noqa: BLE001
+        run.violation({"files": files}, {"what": "UAGraph.from_path raised on a closed document set: %s: %s" % (type(e).__name__, str(e)[:200])})
+        return False
+    G0 = copy.deepcopy(G)
+    fp0 = graph_fp(G)
+    A, B = "http://a.example/types", "http://b.example/inst"
+    ops = [{"k": "write", "uri": A, "outgoing": True, "new_version": None, "target": "stringio"},
+           {"k": "write", "uri": A, "outgoing": True, "new_version": "2.5.0", "target": "stringio"},
+           {"k": "write", "uri": A, "outgoing": True, "new_version": None, "target": "stringio"},
+           {"k": "write", "uri": B, "outgoing": False, "new_version": None, "target": "file"},
+           {"k": "write", "uri": A, "outgoing": True, "new_version": "2.5.0", "target": "file"}]
+    fresh = {}
+    for step, op in enumerate(ops):
+        key = json.dumps(op, sort_keys=True)
+        if key not in fresh:
+            fresh[key] = apply(copy.deepcopy(G0), op, sc)[0]
+    case = {"files": files, "history": []}
+    for step, op in enumerate(ops):
+        case["history"].append(op)
+        run.case({"modelless": step, "op": op}, nontrivial=step > 0, tag="op:write:modelless")
+        out, problems = apply(G, op, sc)
+        if graph_fp(G) != fp0:
+            problems.append("graph changed by step %d: %s" % (step, diff_fp(fp0, graph_fp(G))))
+        if out != fresh[json.dumps(op, sort_keys=True)]:
+            problems.append("step %d (%s) does not return what it returns on a freshly built graph" % (step, json.dumps(op)))
+        if problems:
+            run.violation(case, {"what": "; ".join(problems)[:2000]})
+            return False
+    return True
+
+
 def explore(run):
     thorough = run.tier == "thorough"
     with minibase.Scratch() as sc:
+        if not modelless_witness(run, sc):
+            return
         for i in range(60 if thorough else 12):
             if not one_history(run, sc, i, 120 if thorough else 25):
                 return
